@@ -55,6 +55,14 @@ def run(ck: Checker, prog: Program, tier: str):
     ck.guard(_r6_outer, ck, prog, inner, outer)
     ck.guard(S.check_alias_discipline, ck, prog, "C06.R4", floor=3)
     ck.guard(_entry_state, ck, prog, outer)
+    # the peaks the criterion reads: found per window with the caller's range and find_peaks arguments, for every azimuth; and the
+    # statistics it compares are the stated estimators (rules of C08 and C05)
+    from . import c08, c05
+    with ck.borrow(c08, "C06.R6+"):
+        ck.guard(c08._r2, ck, prog)
+        ck.guard(c08._r4, ck, prog)
+    with ck.borrow(c05, "C06.R6+"):
+        ck.guard(S.check_estimators, ck, prog, "C05.R3")
 
 
 def _iteration_loop(inner) -> ast.For:
